@@ -70,6 +70,21 @@ def materialize(v):
     return v
 
 
+def tree_meta_marker(v):
+    """Materialised values (tuple keys, sets) are left alone."""
+    def bad(x):
+        if isinstance(x, dict):
+            return any(not isinstance(k, str) for k in x) or \
+                any(bad(y) for y in x.values())
+
+        if isinstance(x, list):
+            return any(bad(y) for y in x)
+
+        return isinstance(x, (set, bytes))
+
+    return {NOT_JSON: 1} if bad(v) else {}
+
+
 def has_not_json(v):
     if isinstance(v, dict):
         return NOT_JSON in v or any(has_not_json(x) for x in v.values())
@@ -178,7 +193,7 @@ def trees(draw, max_changes=4, max_files=3, min_changes=0,
 # Building
 # ---------------------------------------------------------------------------
 
-def build(tree):
+def build(tree, ordered=True, probe=False):
     """Build the tree through the public API only.  Mutable arguments are
     deep-copied so the harness never shares an object between sections."""
     ns = sut.load()
@@ -190,6 +205,15 @@ def build(tree):
 
         if 'meta' in attrs:
             attrs['meta'] = materialize(attrs['meta'])
+            flavour = len(repr(attrs['meta'])) % 4
+
+            if flavour == 0 and not ordered:
+                # (OrderedDicts in different orders are unequal objects)
+                flavour = 1
+
+            if flavour < 2 and isinstance(attrs['meta'], dict) and \
+                    not has_not_json(tree_meta_marker(attrs['meta'])):
+                attrs['meta'] = gen.as_other_mapping(attrs['meta'], flavour)
 
         if tree.get('attr_order') == 'reversed':
             attrs = dict(reversed(list(attrs.items())))
@@ -206,11 +230,29 @@ def build(tree):
 
     diffx = make(ns.DiffX, tree['main'])
 
+    def look():
+        # what a caller may do while a tree is being put together
+        if probe:
+            try:
+                diffx.to_bytes()
+            except Exception:
+                pass
+
+            repr(diffx)
+            diffx == diffx
+
+            for c in diffx.changes:
+                list(c.subsections)
+
+    look()
+
     for c in tree['changes']:
         change = make(diffx.add_change, c['attrs'])
+        look()
 
         for f in c['files']:
             make(change.add_file, f)
+            look()
 
     return diffx
 
